@@ -325,7 +325,6 @@ func TestC03_ConcurrentFirstContact(t *testing.T) {
 	})
 }
 
-
 // firstContactStorm fires G simultaneous first requests of one fresh source at a fresh limiter.
 func firstContactStorm(t *rapid.T, rs *ratelimit.RateSet, G int, amt int64) int64 {
 	var mu sync.Mutex
@@ -372,7 +371,6 @@ func firstContactStorm(t *rapid.T, rs *ratelimit.RateSet, G int, amt int64) int6
 	wg.Wait()
 	return served
 }
-
 
 // TestC03_EntryLifetimeEdges aims at the instants where the limiter's memory of a
 // source can go wrong: requests (single tokens or whole bursts) placed just before and
